@@ -880,6 +880,7 @@ var Prop = &harness.Prop{
 		for p := 0; p < 16; p++ {
 			u = append(u, tlsSuiteMatrixUnit(p, 16))
 		}
+		u = append(u, sniUnit(0x0301), sniUnit(0x0303))
 		for _, sp := range supplyPaths() {
 			u = append(u, certSupplyUnit(sp))
 		}
